@@ -24,7 +24,7 @@ import gen
 from c20_vocab import vocab_category
 
 PROOF_MODULES = ["UnytProofs.C20", "UnytProofs.C20Tab0", "UnytProofs.C20Tab1", "UnytProofs.C20Tab2", "UnytProofs.C20Names",
-                 "UnytProofs.C20Syntax", "UnytProofs.C20Total"]
+                 "UnytProofs.C20Syntax", "UnytProofs.C20Total", "UnytProofs.C20Roundtrip"]
 HERE = os.path.dirname(os.path.abspath(__file__))
 LIMIT = 5.0  # seconds per request on the real parser
 
@@ -72,9 +72,13 @@ class Real:
         line, self.buf = self.buf.split(b"\n", 1)
         return line
 
-    def run(self, reqs, chunk=200):
+    def run(self, reqs, chunk=100):
         """replies for a list of requests; {'r': 'hang'} for one that did not come back,
-        {'r': 'died'} when the child died on it"""
+        {'r': 'died'} when the child died on it.  Requests are fed by a separate thread so that a
+        full pipe in one direction can never block the other (requests and replies both exceed
+        the 64 kB pipe buffer for long strings)."""
+        import threading
+
         out = []
         i = 0
         while i < len(reqs):
@@ -82,13 +86,17 @@ class Real:
                 self.start()
             part = reqs[i:i + chunk]
             data = "".join(json.dumps(r) + "\n" for r in part).encode("utf-8")
-            try:
-                self.p.stdin.write(data)
-                self.p.stdin.flush()
-            except Exception:  # noqa: BLE001
-                self.stop()
-                self.restarts += 1
-                continue
+            proc = self.p
+
+            def feed(proc=proc, data=data):
+                try:
+                    proc.stdin.write(data)
+                    proc.stdin.flush()
+                except Exception:  # noqa: BLE001  (child killed meanwhile)
+                    pass
+
+            th = threading.Thread(target=feed, daemon=True)
+            th.start()
             done = 0
             for _ in part:
                 line = self._readline(LIMIT if done else LIMIT + 20.0)  # first reply also pays the import
@@ -106,6 +114,7 @@ class Real:
                     break
                 out.append(json.loads(line))
                 done += 1
+            th.join(timeout=10)
             i += done
         return out
 
@@ -460,7 +469,7 @@ def from_cps(t):
 def hang_shape(s):
     import re
 
-    if re.search(r"\d[eE][+-]?\d{6,}", s):
+    if re.search(r"[\d.][eE][+-]?[\d_]{6,}", s):
         return "float-exponent"
     if "**" in s and any(c.isdigit() for c in s):
         return "numeric-power"
